@@ -18,7 +18,7 @@ CLAIMS = {
          "The bridge facts ⇒ Disciplined traces (lockset soundness) is the translator's meaning, not a theorem; recorded undisciplined sites are findings in the ledger; the race detector run covers the race-free call subsets only.",
          "Lean 4 proof (happens-before theorem + decide over regenerated lock facts) + Go race detector as search", "§3 C08"),
  "C01": ("Lean 4 theorems over the MemFS model for every call, path and state: a path that is not lexically clean behaves exactly as its Clean() form (walk, outcome and resulting state). The equality with Linux itself is decided by running MemFS and the kernel (OsFS in a chroot on tmpfs) on the same histories with full tree comparison after every call; each known divergence is a ledger class keyed by call, operand situation and the two outcomes.",
-         "MemFS = POSIX reference is proved for Mkdir, Remove, Stat/Lstat on clean absolute link-free paths (component-wise resolution, error selection, effect); for the other calls and for paths through links it is NOT a theorem. OrefaFS has an executable Lean model tied by the same kind of correspondence (results, node tree and path index after every call) and is compared with the kernel in the same way, but no theorem is stated about it yet. The kernel comparison is an oracle run, sampled.",
+         "MemFS = POSIX reference is proved for Mkdir, Remove, Stat/Lstat, OpenFile, Link, Truncate, Chmod, Chown (administrator), Rename on clean absolute link-free paths (component-wise resolution, error selection, effect; MemFS's deviations are explicit corner hypotheses with witnesses); for RemoveAll, MkdirAll, symlink calls, composites and paths through links it is NOT a theorem. OrefaFS has an executable Lean model tied by the same kind of correspondence (results, node tree and path index after every call) and is compared with the kernel in the same way, but no theorem is stated about it yet. The kernel comparison is an oracle run, sampled.",
          "Lean 4 proof (unclean = clean) + differential correspondence impl≟model + impl≟kernel oracle with ledger", "§3 C01"),
  "C04": ("Lean 4 theorems: the symlink walk terminates for every link graph and path within a computed fuel (potential-function proof), the budget is 40, no-follow calls get the directory entry itself, a reported ENOENT is sound. Resolution equality with the kernel is an oracle run (chains around the budget, relative/absolute/dangling/cyclic targets).",
          "searchNode ≃ namei is not proved; equality with the kernel is sampled.",
